@@ -13,6 +13,7 @@
 //	R7 channels   <-ch, ch <- v, close(ch), select without default, sync.Cond, sync.WaitGroup
 //	              -> verifRecv / verifSend / verifClose, a polling select, verifCond, verifWaitGroup: a task that
 //	              would block tells the scheduler (same hook as R5) instead of blocking the only running goroutine
+//	R8 goroutines go f(a, b) in package slog       -> verifGo(...): the new goroutine is one more task of the scheduler
 //	R5 locks      sync.Mutex / sync.RWMutex       -> verifMutex / verifRWMutex (TryLock loop that reports
 //	                                                 "blocked" to the scheduler instead of blocking the
 //	                                                 one running goroutine; no site on the pinned tree)
@@ -60,7 +61,7 @@ type edit struct {
 // Build parses the tree and writes the overlay. A rule that finds no site is
 // not an error (the check then runs with fewer seams and says so).
 func Build(opt Options) (*Report, error) {
-	rep := &Report{Seams: map[string]int{"R1": 0, "R2": 0, "R3": 0, "R4": 0, "R5": 0, "R6": 0, "R7": 0}, Replaced: map[string]string{}}
+	rep := &Report{Seams: map[string]int{"R1": 0, "R2": 0, "R3": 0, "R4": 0, "R5": 0, "R6": 0, "R7": 0, "R8": 0}, Replaced: map[string]string{}}
 	if err := os.MkdirAll(opt.OutDir, 0o755); err != nil {
 		return nil, err
 	}
@@ -339,6 +340,39 @@ func Build(opt Options) (*Report, error) {
 					if id, ok := x.Fun.(*ast.Ident); ok && id.Name == "close" && id.Obj == nil && len(x.Args) == 1 && !skipR7 {
 						edits = append(edits, edit{off(id.Pos()), 5, "verifClose"})
 						r7("close", x.Pos())
+					}
+				case *ast.GoStmt:
+					// R8: function value and arguments are evaluated now (as the go statement does), the call runs in a
+					// goroutine the scheduler knows. Only delimiters are rewritten, so rewrites inside the operands stand.
+					c := x.Call
+					multi := len(c.Args) == 1
+					if multi {
+						_, multi = c.Args[0].(*ast.CallExpr) // f(g()) may pass several values: left alone
+					}
+					if !skipR7 && !multi {
+						names := make([]string, len(c.Args))
+						for k := range c.Args {
+							names[k] = fmt.Sprintf("verifA%d", k)
+						}
+						call := "verifF(" + strings.Join(names, ", ")
+						if c.Ellipsis.IsValid() {
+							call += "..."
+						}
+						call += ")"
+						tail := "; return func() { " + call + " } }())"
+						edits = append(edits, edit{off(x.Go), 2, "verifGo(func() func() { verifF := "})
+						if len(c.Args) == 0 {
+							edits = append(edits, edit{off(c.Lparen), off(c.Rparen) + 1 - off(c.Lparen), tail})
+						} else {
+							edits = append(edits, edit{off(c.Lparen), off(c.Args[0].Pos()) - off(c.Lparen), "; " + names[0] + " := "})
+							for k := 1; k < len(c.Args); k++ {
+								edits = append(edits, edit{off(c.Args[k-1].End()), off(c.Args[k].Pos()) - off(c.Args[k-1].End()), "; " + names[k] + " := "})
+							}
+							last := c.Args[len(c.Args)-1]
+							edits = append(edits, edit{off(last.End()), off(c.Rparen) + 1 - off(last.End()), tail})
+						}
+						rep.Seams["R8"]++
+						rep.Sites = append(rep.Sites, fmt.Sprintf("R8 %s:%d go in %s", base, fset.Position(x.Pos()).Line, curFunc))
 					}
 				case *ast.SelectStmt:
 					// R7: a select that may block polls instead, telling the scheduler between two rounds
@@ -787,6 +821,17 @@ type rlocker struct{ m *verifRWMutex }
 
 func (r rlocker) Lock()   { r.m.RLock() }
 func (r rlocker) Unlock() { r.m.RUnlock() }
+
+// VerifSpawn is the goroutine seam (rule R8): goroutines the library starts itself become tasks of the scheduler.
+var VerifSpawn func(func())
+
+func verifGo(f func()) {
+	if h := VerifSpawn; h != nil {
+		h(f)
+		return
+	}
+	go f()
+}
 
 // Rule R7: channel operations, condition variables and wait groups of package slog. A task that would block
 // reports to the scheduler through the lock seam (key = the channel) and tries again when it is run again; the
